@@ -157,3 +157,254 @@ M.loop(P_ENV + ':_expand_vars', 0,
        and processed + expand(remaining, environ) == expand(value, environ),
        modifies=dict(processed=Str, remaining=Str, match=_MATCH),
        decreases=lambda remaining: len(remaining))
+
+
+# ------------------------------------------------------------------------------ the two modifiers
+
+M.contract(P_ENV + ':ModifierOfSet.modify',
+           params=dict(self=Inst(env_impl.ModifierOfSet, _name=Str, _value=Str), environ=ENVIRON),
+           modifies=('environ',), old=lambda environ: dict(environ),
+           ensures={'env[name -> expand(value, env before the change)], other variables unchanged':
+                    lambda self, environ, old: environ == _with(old, self._name, expand(self._value, old))},
+           raises_only=())
+
+M.contract(P_ENV + ':ModifierUnset.modify',
+           params=dict(self=Inst(env_impl.ModifierUnset, name=Str), environ=ENVIRON),
+           modifies=('environ',), old=lambda environ: dict(environ),
+           ensures={'variable removed if present, other variables unchanged; never an error':
+                    lambda self, environ, old: environ == _without(old, self.name)},
+           raises_only=())
+
+
+# ------------------------------------------------------------------------------ environment of the appliers
+
+from exactly_lib.test_case.phases.instruction_settings import InstructionSettings
+from exactly_lib.test_case.phases.setup.settings_builder import SetupSettingsBuilder
+from exactly_lib.test_case.phases.instruction_environment import InstructionEnvironmentForPostSdsStep
+from exactly_lib.util.process_execution.execution_elements import ProcessExecutionSettings
+
+
+def _default_environ(interp, self, args, kwargs):
+    """DefaultEnvironGetter: gives a new dict on every call (cli_default: dict(os.environ)).  The ghost event
+    records a snapshot of its contents."""
+    d = ENVIRON.make(interp, 'default-environ')
+    interp.st.emit('default-environ', d.copy(interp))
+    return d
+
+
+class DefaultEnvironGetterI(Interface):
+    methods = {'__call__': Method(model=_default_environ)}
+
+
+class ContentsI(Interface):
+    attrs = {'as_str': Str}
+
+
+class StringSourceI(Interface):
+    methods = {'contents': Method(returns=Iface(ContentsI), event='contents')}
+
+
+class StringSourceAdvI(Interface):
+    """the value of `env NAME = VALUE`: evaluated in an application environment (it may run a program)"""
+    methods = {'primitive': Method(returns=Iface(StringSourceI), event='value-source')}
+
+
+class TmpFileStorageI(Interface):
+    attrs = {'paths_access': Any_}
+
+
+class InstructionEnvironmentI(Interface):
+    target_class = InstructionEnvironmentForPostSdsStep
+    attrs = {'proc_exe_settings': Inst(ProcessExecutionSettings, _tuple=[Opt(Int), Any_]),
+             'tmp_dir__path_access': Iface(TmpFileStorageI), 'mem_buff_size': Int, 'symbols': Any_, 'tcds': Any_}
+
+
+SETTINGS = Inst(InstructionSettings, _environ=Opt(ENVIRON), _default_environ_getter=Iface(DefaultEnvironGetterI),
+                _timeout_in_seconds=Opt(Int))
+SETUP_SETTINGS = Inst(SetupSettingsBuilder, _stdin=Any_, _environ=Opt(ENVIRON))
+APP_ENV_CONSTRUCTOR = Inst(env_impl._AppEnvConstructor, _environment=Iface(InstructionEnvironmentI), _os_services=Any_)
+
+ADV_SET = Inst(env_impl.ModifierAdvForSet, _name=Str, _value=Iface(StringSourceAdvI))
+ADV_UNSET = Inst(env_impl.ModifierAdvForUnset, _name=Str)
+ADV = Union(ADV_SET, ADV_UNSET)          # closed world: the two modifier kinds of environ/impl.py (check `modifier-kinds`)
+
+
+@M.check('modifier-kinds')
+def _modifier_kinds(ctx):
+    kinds = {k.__name__ for k in env_impl.Modifier.__subclasses__()}
+    ctx.obligation('the modifiers are ModifierOfSet and ModifierUnset', kinds == {'ModifierOfSet', 'ModifierUnset'},
+                   'enumeration', detail={'subclasses': sorted(kinds)})
+    sdvs = {k.__name__ for k in env_impl.ModifierSdv.__subclasses__()}
+    ctx.obligation('the modifier SDVs are ModifierSdvOfSet and ModifierSdvOfUnset',
+                   sdvs == {'ModifierSdvOfSet', 'ModifierSdvOfUnset'}, 'enumeration', detail={'subclasses': sorted(sdvs)})
+
+
+M.contract(P_ENV + ':ModifierAdvForSet.primitive', params=dict(self=ADV_SET, environment=Any_), inline=True,
+           ensures={'sets the name to the contents of the value, read in the given application environment':
+                    lambda self, environment, result, trace:
+                    isinstance(result, env_impl.ModifierOfSet) and result._name == self._name
+                    and result._value == values_read(trace)[0] and value_sources(trace) == [environment]},
+           raises_only=())
+M.contract(P_ENV + ':ModifierAdvForUnset.primitive', params=dict(self=ADV_UNSET, environment=Any_), inline=True,
+           ensures={'unsets the name': lambda self, result:
+           isinstance(result, env_impl.ModifierUnset) and result.name == self._name},
+           raises_only=())
+
+
+def values_read(trace):
+    """the value strings read (contents of the value string sources), in order"""
+    return [e[2].as_str for e in trace if e[0] == 'contents:returned']
+
+
+def value_sources(trace):
+    """the application environments the value string sources were evaluated in, in order"""
+    return [e[2][0] for e in trace if e[0] == 'value-source']
+
+
+def defaults_taken(trace):
+    """snapshots of the default environments obtained from the default-environ getter, in order"""
+    return [e[1] for e in trace if e[0] == 'default-environ']
+
+
+def effect(adv, value, env):
+    """the transition of one environment: set NAME to the expanded value / unset NAME"""
+    if isinstance(adv, env_impl.ModifierAdvForSet):
+        return _with(env, adv._name, expand(value, env))
+    return _without(env, adv._name)
+
+
+def _is_set(adv):
+    return isinstance(adv, env_impl.ModifierAdvForSet)
+
+
+# ------------------------------------------------------------------------------ appliers: which set, populate-if-unset
+
+def _snapshot(optional_environ):
+    return None if optional_environ is None else dict(optional_environ)
+
+
+def _applied(adv, before, now, trace, k_value=0, k_default=0):
+    """`now` is `before` (or, if that was None, the default environment just taken) after the transition;
+    a set-value was read in an application environment holding the set as it was before the change"""
+    e0 = defaults_taken(trace)[k_default] if before is None else before
+    v = values_read(trace)[k_value] if _is_set(adv) else ''
+    return now is not None and now == effect(adv, v, e0)
+
+
+M.contract(P_ENV + ':ModifierApplierForNonSetupPhase.apply',
+           params=dict(self=Inst(env_impl.ModifierApplierForNonSetupPhase, _instruction_settings=SETTINGS,
+                                 _app_env_constructor=APP_ENV_CONSTRUCTOR), modifier=ADV),
+           inline=True, modifies=('self._instruction_settings',),
+           old=lambda self: (_snapshot(self._instruction_settings.environ()), self._instruction_settings.environ(),
+                             self._instruction_settings.timeout_in_seconds()),
+           ensures={
+               'the non-act set: populated from the default if unset, then modified': lambda self, modifier, old, trace:
+               _applied(modifier, old[0], self._instruction_settings.environ(), trace)
+               and len(defaults_taken(trace)) == (1 if old[0] is None else 0),
+               'value evaluated with the non-act set as it was before the change': lambda self, modifier, old, trace:
+               (not _is_set(modifier)) or
+               (len(value_sources(trace)) == 1
+                and value_sources(trace)[0].process_execution_settings.environ is old[1]),
+               'timeout untouched': lambda self, old: self._instruction_settings.timeout_in_seconds() == old[2],
+           }, raises_only=())
+
+M.contract(P_ENV + ':ModifierApplierForSetupPhase.apply',
+           params=dict(self=Inst(env_impl.ModifierApplierForSetupPhase, _instruction_settings=SETTINGS,
+                                 _app_env_constructor=APP_ENV_CONSTRUCTOR, _setup_phase_settings=SETUP_SETTINGS),
+                       modifier=ADV),
+           inline=True, modifies=('self._setup_phase_settings',),
+           old=lambda self: (_snapshot(self._setup_phase_settings.environ), self._setup_phase_settings.environ,
+                             self._instruction_settings.environ()),
+           ensures={
+               'the act set: populated from the default if unset, then modified': lambda self, modifier, old, trace:
+               _applied(modifier, old[0], self._setup_phase_settings.environ, trace)
+               and len(defaults_taken(trace)) == (1 if old[0] is None else 0),
+               'value evaluated with the act set as it was before the change': lambda self, modifier, old, trace:
+               (not _is_set(modifier)) or
+               (len(value_sources(trace)) == 1
+                and value_sources(trace)[0].process_execution_settings.environ is old[1]),
+               'the non-act set is the same object (its contents: frame obligation)': lambda self, old:
+               self._instruction_settings.environ() is old[2],
+           }, raises_only=())
+
+
+# ------------------------------------------------------------------------------ the env instruction: main
+
+ACT, NON_ACT = env_impl.Phase.ACT, env_impl.Phase.NON_ACT
+PHASE_SETS = OneOf(frozenset((ACT,)), frozenset((NON_ACT,)), frozenset((ACT, NON_ACT)), frozenset())
+
+
+class ModifierDdvI(Interface):
+    target_class = env_impl.ModifierDdv
+    methods = {'resolve': Method(returns=ADV, event='adv')}
+
+
+class ModifierSdvI(Interface):
+    target_class = env_impl.ModifierSdv
+    methods = {'resolve': Method(returns=Iface(ModifierDdvI))}
+
+
+EMBRYO = Inst(env_impl.TheInstructionEmbryo, _phases=PHASE_SETS, _modifier=Iface(ModifierSdvI))
+
+
+def the_modifier(trace):
+    """the resolved modifier (application-environment dependent value) of this execution of main"""
+    return [e[2] for e in trace if e[0] == 'adv:returned'][0]
+
+
+def _untouched(now, old_object, old_snapshot):
+    return now is old_object and (now is None or now == old_snapshot)
+
+
+def _main_old(settings, setup_phase_settings):
+    return (_snapshot(settings.environ()), settings.environ(), settings.timeout_in_seconds(),
+            None if setup_phase_settings is None else _snapshot(setup_phase_settings.environ),
+            None if setup_phase_settings is None else setup_phase_settings.environ)
+
+
+def _act_is_changed(self, setup_phase_settings):
+    """the act set is changed by `env` only in the setup phase (the only phase before act) and unless -of !act"""
+    return setup_phase_settings is not None and ACT in self._phases
+
+
+def _non_act_is_changed(self):
+    return NON_ACT in self._phases
+
+
+M.contract(P_ENV + ':TheInstructionEmbryo.main',
+           params=dict(self=EMBRYO, environment=Iface(InstructionEnvironmentI), settings=SETTINGS,
+                       setup_phase_settings=Opt(SETUP_SETTINGS), os_services=Any_),
+           modifies=('settings', 'setup_phase_settings'),
+           old=lambda settings, setup_phase_settings: _main_old(settings, setup_phase_settings),
+           ensures={
+               'act set: changed (against itself) in setup unless -of !act; otherwise untouched':
+                   lambda self, setup_phase_settings, old, trace:
+                   setup_phase_settings is None or (
+                       _applied(the_modifier(trace), old[3], setup_phase_settings.environ, trace, 0, 0)
+                       if _act_is_changed(self, setup_phase_settings) else
+                       _untouched(setup_phase_settings.environ, old[4], old[3])),
+               'non-act set: changed (against itself) unless -of act; otherwise untouched':
+                   lambda self, settings, setup_phase_settings, old, trace:
+                   (_applied(the_modifier(trace), old[0], settings.environ(), trace,
+                             1 if (_act_is_changed(self, setup_phase_settings) and _is_set(the_modifier(trace))) else 0,
+                             1 if (_act_is_changed(self, setup_phase_settings) and old[3] is None) else 0)
+                    if _non_act_is_changed(self) else _untouched(settings.environ(), old[1], old[0])),
+               'each value is evaluated with the set it goes into, as that set was before the change':
+                   lambda self, setup_phase_settings, old, trace:
+                   [s.process_execution_settings.environ for s in value_sources(trace)] ==
+                   (([old[4]] if _act_is_changed(self, setup_phase_settings) else [])
+                    + ([old[1]] if _non_act_is_changed(self) else []) if _is_set(the_modifier(trace)) else []),
+               'timeout untouched': lambda settings, old: settings.timeout_in_seconds() == old[2],
+           }, raises_only=())
+
+M.contract(P_ENV + ':TheInstructionEmbryo._resolve_applier_factory',
+           params=dict(instruction_settings=SETTINGS, app_env_constructor=APP_ENV_CONSTRUCTOR,
+                       setup_phase_settings=Opt(SETUP_SETTINGS)), inline=True,
+           ensures={'setup phase (settings builder given): appliers for both sets; otherwise only for the non-act set':
+                    lambda instruction_settings, setup_phase_settings, result:
+                    (type(result) is env_impl._ApplierFactoryWSupportForNonSetupPhase
+                     if setup_phase_settings is None else
+                     (type(result) is env_impl._ApplierFactoryWSupportForSetupAndNonSetupPhases
+                      and result._setup_phase_settings is setup_phase_settings))
+                    and result.instruction_settings is instruction_settings},
+           raises_only=())
